@@ -74,9 +74,9 @@ def s_own(v):
     c.dump_fault = v.int('dump_fault', 0, 3)
     if mode == 5:
         # stale entries, so that both Manifests are rewritten
-        fs.node('a').digest = 'A2'
+        fs.node('a').digest = 'V'
         if ck == 1:
-            fs.node('sub/c').digest = 'C2'
+            fs.node('sub/c').digest = 'W'
     c.xdev = v.bool('sub_other_dev')
     c.upath = ('', 'sub')[v.choice('up', 2)]
     c.force = v.bool('force')
